@@ -178,6 +178,7 @@ func c25(r *core.Run) {
 	}
 	r.Check("C25.G1", core.Key("C25.G1", add, "stored duration is requested or existing"), add.Pos(), okDur,
 		"Add stores either the requested duration or the already stored one", "Add stores a duration that is neither the requested nor the stored one")
+	c25Choice(r, add, get)
 	// F1: every successful Add (re)writes the entry: the only returns are the read error
 	// and the result of store.Put — an early `return nil` keeps a stale timestamp, so a
 	// requested period is not fully covered
